@@ -150,6 +150,27 @@ def build_native(nat):
         c = abi.Uint8()
         return pt.Seq(a.set(_arg_n()), c.set(pt.Int(7)),
                       pt.App.globalPut(pt.Bytes("r"), pt.Int(100000) - mixed(a, pt.Int(5), c)), pt.Int(1))
+    if k == "abi_locals_plain":
+        # a PLAIN value-returning subroutine whose body allocates ABI temporaries (frame locals under frame
+        # pointers) and delivers its value as an expression body / through explicit Return / early Return
+        style, retb = nat["style"], nat["ret"] == "b"
+        wrap = (lambda e: pt.Itob(e)) if retb else (lambda e: e)
+
+        @pt.Subroutine(pt.TealType.bytes if retb else pt.TealType.uint64)
+        def plain(k_):
+            s = abi.String()
+            u = abi.Uint64()
+            setup = [s.set("ab"), u.set(k_ + pt.Int(1))]
+            value = wrap(pt.Len(s.get()) + u.get() + k_)
+            if style == "expr":
+                return pt.Seq(*setup, value)
+            if style == "return":
+                return pt.Seq(*setup, pt.Return(value))
+            if style == "early":
+                return pt.Seq(*setup, pt.If(k_ == pt.Int(0)).Then(pt.Return(wrap(pt.Int(77)))), pt.Return(value))
+            return pt.Seq(*setup, pt.If(k_ == pt.Int(0)).Then(pt.Return(wrap(pt.Int(77)))).Else(pt.Return(value)))
+        got = pt.Btoi(plain(_arg_n())) if retb else plain(_arg_n())
+        return pt.Seq(pt.App.globalPut(pt.Bytes("r"), pt.Int(100000) - got), pt.Int(1))
     raise AssertionError(k)
 
 
@@ -241,6 +262,11 @@ def expected_native(nat, inp):
             if v > 100000:
                 return ("FAIL",)
             eff.append(("gput", b"r", 100000 - v))
+        elif k == "abi_locals_plain":
+            v = 77 if (n == 0 and nat["style"] in ("early", "ifelse")) else _c(2 + _c(n + 1) + n)
+            if v > 100000:
+                return ("FAIL",)
+            eff.append(("gput", b"r", 100000 - v))
     except _Ovf:
         return ("FAIL",)
     return ("APPROVE", 1, tuple(eff))
@@ -269,4 +295,7 @@ def programs(tier="quick"):
             out.append((2, {"kind": "abi_byref", "pos": pos, "nested": nested}, ins))
     out.append((1, {"kind": "abi_string"}, ins))
     out.append((1, {"kind": "abi_mixed"}, ins))
+    for style in ("expr", "return", "early", "ifelse"):
+        for ret in ("u", "b"):
+            out.append((2, {"kind": "abi_locals_plain", "style": style, "ret": ret}, ins))
     return out
